@@ -10,6 +10,7 @@ import (
 
 	"github.com/tyler-sommer/stick"
 	"github.com/tyler-sommer/stick/parse"
+	"github.com/tyler-sommer/stick/twig"
 
 	"verif/core"
 )
@@ -158,6 +159,10 @@ func c20Expectations(src string) c20Expect {
 	return e
 }
 
+// c20Synth: the tree went through an environment's node visitors; the arguments of escape filters may have been
+// inserted by the auto-escaper (they stand for nothing in the source) and are not checked.
+var c20Synth bool
+
 func c20CheckNodes(src string, root parse.Node) string {
 	e := c20Expectations(src)
 	seenPrint, seenTag := map[int]bool{}, map[int]bool{}
@@ -285,7 +290,12 @@ func c20CheckNodes(src string, root parse.Node) string {
 			if !ok {
 				msg = fmt.Sprintf("StringExpr(%q) reports %s, where the source has %q", x.Text, ps, snippet(src, off))
 			}
-		case *parse.FilterExpr, *parse.TestExpr:
+		case *parse.FilterExpr:
+			// anchor not pinned by the statement
+			if c20Synth && x.Name == "escape" && len(x.Args) > 0 {
+				return walk(x.Args[0])
+			}
+		case *parse.TestExpr:
 			// anchor not pinned by the statement
 		case *parse.FuncExpr:
 			msg = word(x, x.Name)
@@ -456,6 +466,23 @@ func c20Run(c core.Case) core.Result {
 		}
 		if msg := c20CheckNodes(src, tree.Root()); msg != "" {
 			return core.Violation("node-position", fmt.Sprintf("in %q: %s", src, msg))
+		}
+		// the same source parsed through environments (Env.Parse runs the registered node visitors over the tree - the
+		// Twig environment's auto-escaping wraps every print): the positions are still the source's
+		for ei, env := range []*stick.Env{stick.New(&stick.MemoryLoader{Templates: map[string]string{"t.html": src}}), twig.New(&stick.MemoryLoader{Templates: map[string]string{"t.html": src}})} {
+			etree, eerr, epan := tryEnvParse(env, "t.html")
+			if epan != "" {
+				return core.Violation("panic", fmt.Sprintf("Env.Parse of %q (environment %d) panicked: %s", src, ei, epan))
+			}
+			if eerr != nil {
+				return core.Violation("node-position", fmt.Sprintf("%q parses with parse.Parse but not through Env.Parse (environment %d): %v", src, ei, eerr))
+			}
+			c20Synth = true
+			msg := c20CheckNodes(src, etree.Root())
+			c20Synth = false
+			if msg != "" {
+				return core.Violation("node-position", fmt.Sprintf("in %q parsed through Env.Parse of %s environment: %s", src, []string{"a core", "a Twig"}[ei], msg))
+			}
 		}
 		return core.Okay(strings.Contains(src, "\n"), "ok")
 	case "trunc":
@@ -711,10 +738,13 @@ func c20Levels(tier string) []core.Level {
 				}
 			}
 		}},
-		{Name: "errors raised while loading a named template identify it: 6 broken templates x 13 names (incl. '%' sequences, spaces, non-ASCII, ' in ') x {direct, parse, include, extends, import, embed, use}", Gen: func(emit func(core.Case)) {
+		{Name: "errors raised while loading a named template identify it: 6 broken templates x 20 names (incl. '%' sequences, spaces, non-ASCII, ' in ', names of 53..260 bytes, names that share a long prefix, a line break) x {direct, parse, include, extends, import, embed, use}", Gen: func(emit func(core.Case)) {
 			broken := []string{"x{% if %}", "{{ a", "{% bogus %}", "{{ a $ }}", "t{% for i in x %}", "{% include %}"}
 			for _, b := range broken {
-				for _, name := range []string{"a", "a.html.twig", "dir/b.twig", "my tpl.twig", "100%.twig", "a%20b.twig", "%s", "report_%d.twig", "{0}.twig", "a\\b.twig", "ü€.twig", "a:b", "x in y.twig"} {
+				for _, name := range []string{"a", "a.html.twig", "dir/b.twig", "my tpl.twig", "100%.twig", "a%20b.twig", "%s", "report_%d.twig", "{0}.twig", "a\\b.twig", "ü€.twig", "a:b", "x in y.twig",
+					// long names (any length is a name), names that agree in their first 40 / 100 bytes, a name with a line break
+					"templates/admin/users/partials/address_form.html.twig", "templates/admin/users/partials/address_list.html.twig", strings.Repeat("d/", 60) + "x.twig", strings.Repeat("n", 255) + ".twig",
+					strings.Repeat("long-", 40) + "a", strings.Repeat("long-", 40) + "b", "first line\nsecond line.twig"} {
 					for _, via := range []string{"direct", "parse", "include", "extends", "import", "embed", "use"} {
 						emit(core.Case{Fam: "name", Src: b, Args: []string{name, via}})
 					}
